@@ -78,6 +78,7 @@ type v09Engine struct {
 	defaultID   int
 	entries     []OutboundEntry
 	long        bool
+	longNames   bool
 }
 
 const v09Reject = -1
@@ -136,6 +137,10 @@ func (e *v09Engine) finish(c *v09Ctx, qs []v09Query) []v09Query {
 	if c.n(0, 39, "longLine") == 0 {
 		e.file = v09LongLine(e.file, c.n(0, 40, "longAt"), c.n(0, 3, "longHow"))
 		e.long = true
+	}
+	if ln := c.longNames(e.rules, qs); ln != nil { // drawn after everything else
+		qs = append(qs, ln...)
+		e.longNames = true
 	}
 	e.eng = e.build()
 	return qs
@@ -330,7 +335,7 @@ func (t *v09Tally) list() []string {
 	var out []string
 	for _, k := range []string{"decided:default", "decided:exact", "decided:suffix", "decided:wildcard", "decided:ip", "decided:cidr",
 		"decided:all", "decided:with-hijack", "decided:by-later-rule", "decided:built-in-reject", "decided:rule-names-default",
-		"query:no-resolve-info", "query:case-or-dot-variant", "query:punycode-name(spelling/history invariance)", "file:line>64KiB", "repeat:cache-hit", "repeat:hit-under-other-spelling",
+		"query:no-resolve-info", "query:case-or-dot-variant", "query:punycode-name(spelling/history invariance)", "file:line>64KiB", "query:long-names-sharing-a-prefix", "repeat:cache-hit", "repeat:hit-under-other-spelling",
 		"repeat:after-eviction", "query-matched-by>=2-rules-with-different-results", "default-overridden-by-name", "empty-rule-list"} {
 		if t.seen[k] {
 			out = append(out, k)
@@ -378,6 +383,9 @@ func TestVerifC09_Engine(t *testing.T) {
 		}
 		if e.long {
 			tl.add("file:line>64KiB")
+		}
+		if e.longNames {
+			tl.add("query:long-names-sharing-a-prefix")
 		}
 		if len(e.rules) == 0 {
 			tl.add("empty-rule-list")
@@ -456,6 +464,9 @@ func TestVerifC09_EngineEvict(t *testing.T) {
 		}
 		if e.long {
 			tl.add("file:line>64KiB")
+		}
+		if e.longNames {
+			tl.add("query:long-names-sharing-a-prefix")
 		}
 		nt := sh.repeatEvicted && sh.distinct > v09EngineCache && tl.seen["query-matched-by>=2-rules-with-different-results"]
 		st.Case(nt, e.entriesText+"\x00"+v09Abbrev(e.file)+"\x00"+v09Keys(probes)+fmt.Sprintf("%d/%d", start, flood), tl.list(), func() string {
